@@ -604,9 +604,12 @@ class FixedRng:
 
     def __init__(self, v):
         self.v = int(v)
+        self.last = None
 
-    def integers(self, m):
-        return self.v
+    def integers(self, low, high=None):
+        lo, hi = (0, int(low)) if high is None else (int(low), int(high))
+        self.last = lo + (self.v - lo) % (hi - lo)
+        return self.last
 
 
 def gen_opt(rng, optimizer=None, sim=None, skind=None):
